@@ -312,8 +312,9 @@ def stage1(ctx, drv, mdl):
         exh["%s: R x F" % name] = len(a)
         cands += a
         n = 3 if (not quick or name == "tree") else 2
-        a = [join_case("@" + name, [])] + [c for k in range(1, n + 1) for c in g.exhaustive(name, R, k)]
-        exh["%s: R^<=%d" % (name, n)] = len(a)
+        R3 = g.reduced_ops3() if quick else R          # quick: 52 of the 68 ops at length 3
+        a = [join_case("@" + name, [])] + [c for k in range(1, n + 1) for c in g.exhaustive(name, R3 if k == 3 else R, k)]
+        exh["%s: R^<=%d%s" % (name, n, " (length 3 over %d ops)" % len(R3) if n == 3 and quick else "")] = len(a)
         cands += a
         pure += a
         if not quick and name not in ("orphans", "residues"):
